@@ -144,6 +144,14 @@ impl From<mpsc::error::TrySendError<PortEvt>> for TrySendError {
 
 impl Error for TrySendError {}
 
+/// Converts a failure to reserve queue space into a [TrySendError].
+fn try_reserve_err(err: mpsc::error::TrySendError<()>) -> TrySendError {
+    match err {
+        mpsc::error::TrySendError::Full(()) => TrySendError::Full,
+        mpsc::error::TrySendError::Closed(()) => TrySendError::Send(SendError::ChMux),
+    }
+}
+
 /// This future resolves when the remote endpoint has closed its receiver.
 ///
 /// It will also resolve when the channel is closed or the channel multiplexer
@@ -280,10 +288,14 @@ impl Sender {
     pub async fn send(&mut self, mut data: Bytes) -> Result<(), SendError> {
         if data.is_empty() {
             let mut credits = self.credits.request(1, 1).await?;
+
+            // Credits are only consumed once queue space is available,
+            // so that they are returned if this function is cancelled.
+            let permit = self.tx.reserve().await?;
             credits.take(1);
 
             let msg = PortEvt::SendData { remote_port: self.remote_port, data, first: true, last: true };
-            self.tx.send(msg).await?;
+            permit.send(msg);
         } else {
             let mut first = true;
             let mut credits = AssignedCredits::default();
@@ -292,6 +304,8 @@ impl Sender {
                 if credits.is_empty() {
                     credits = self.credits.request(data.len().min(u32::MAX as usize) as u32, 1).await?;
                 }
+
+                let permit = self.tx.reserve().await?;
 
                 let at = data.len().min(self.chunk_size).min(credits.available() as usize);
                 let chunk = data.split_to(at);
@@ -304,7 +318,7 @@ impl Sender {
                     first,
                     last: data.is_empty(),
                 };
-                self.tx.send(msg).await?;
+                permit.send(msg);
 
                 first = false;
             }
@@ -329,9 +343,10 @@ impl Sender {
         if data.is_empty() {
             match self.credits.try_request(1)? {
                 Some(mut credits) => {
+                    let permit = self.tx.try_reserve().map_err(try_reserve_err)?;
                     credits.take(1);
                     let msg = PortEvt::SendData { remote_port: self.remote_port, data, first: true, last: true };
-                    self.tx.try_send(msg)?;
+                    permit.send(msg);
                     Ok(())
                 }
                 None => Err(TrySendError::Full),
@@ -341,6 +356,8 @@ impl Sender {
                 Some(mut credits) => {
                     let mut first = true;
                     while !data.is_empty() {
+                        let permit = self.tx.try_reserve().map_err(try_reserve_err)?;
+
                         let at = data.len().min(self.chunk_size);
                         let chunk = data.split_to(at);
 
@@ -352,7 +369,7 @@ impl Sender {
                             first,
                             last: data.is_empty(),
                         };
-                        self.tx.try_send(msg)?;
+                        permit.send(msg);
 
                         first = false;
                     }
@@ -409,6 +426,8 @@ impl Sender {
                     self.credits.request(data_len.min(u32::MAX as usize) as u32, size_of::<u32>() as u32).await?;
             }
 
+            let permit = self.tx.reserve().await?;
+
             let max_ports = self.chunk_size.min(credits.available() as usize) / size_of::<u32>();
             let next =
                 if ports_response.len() > max_ports { ports_response.split_off(max_ports) } else { Vec::new() };
@@ -422,7 +441,7 @@ impl Sender {
                 wait,
                 ports: ports_response,
             };
-            self.tx.send(msg).await?;
+            permit.send(msg);
 
             ports_response = next;
             first = false;
@@ -497,11 +516,13 @@ impl<'a> ChunkSender<'a> {
             if self.credits.is_empty() {
                 self.credits = self.sender.credits.request(1, 1).await?;
             }
+
+            let permit = self.sender.tx.reserve().await?;
             self.credits.take(1);
 
             let msg =
                 PortEvt::SendData { remote_port: self.sender.remote_port, data, first: self.first, last: finish };
-            self.sender.tx.send(msg).await?;
+            permit.send(msg);
 
             self.first = false;
         } else {
@@ -510,6 +531,8 @@ impl<'a> ChunkSender<'a> {
                     self.credits =
                         self.sender.credits.request(data.len().min(u32::MAX as usize) as u32, 1).await?;
                 }
+
+                let permit = self.sender.tx.reserve().await?;
 
                 let at = data.len().min(self.sender.chunk_size).min(self.credits.available() as usize);
                 let chunk = data.split_to(at);
@@ -522,7 +545,7 @@ impl<'a> ChunkSender<'a> {
                     first: self.first,
                     last: data.is_empty() && finish,
                 };
-                self.sender.tx.send(msg).await?;
+                permit.send(msg);
 
                 self.first = false;
             }
